@@ -4,18 +4,35 @@
 (* FxLow plus the floating-point side; the elementary functions are added  *)
 (* by FxAlgoT).  Fid(e) compares the recorded result with the prediction.  *)
 (***************************************************************************)
-EXTENDS FxLow, FxAlgoF, FxContractF
+EXTENDS FxLow, FxAlgoT, FxContractF
 
 PromF(tag, v) == IF tag = "fx" THEN v
                  ELSE IF IsFltTag(tag) THEN floating_point_to_fixed(FmtOf(tag), FDecode(FmtOf(tag), v))
                  ELSE integral_to_fixed(TypeOf(tag), v)
 AsD(tag, v) == IF tag = "f64" THEN FDecode(F64, v) ELSE fixed_to_floating_point(F64, v)
 
-(* results that are fixed_t / integers *)
-LowZ(e) ==
+(* the number of degrees -> radians conversion inside sin_angle / cos_angle / tan_angle, by carrier type *)
+AngleRad(tag, v) == IF tag = "fx" THEN angle_rad_fx(v)
+                    ELSE IF tag = "f32" THEN angle_rad_fx(floating_point_to_fixed(F32, FDecode(F32, v)))
+                    ELSE angle_rad_int(TypeOf(tag), v)
+Unary(ab, f, x) ==
+   CASE f = "sin" -> sin_(x) [] f = "cos" -> cos_(x) [] f = "tan" -> tan_fn(x) [] f = "atan" -> atan_fn(x)
+     [] f = "asin" -> asin_fn(ab, x) [] f = "acos" -> acos_fn(ab, x)
+     [] f = "sqrt" -> sqrt_sel(ab, x) [] f = "sqrt_abacus" -> sqrt_abacus(x) [] f = "sqrt_std" -> sqrt_std_math(x)
+PairBase(op) == SubSeq(op, 1, Len(op) - 5)          \* "sin_pair" -> "sin"
+IsPairOp(op) == op \in {"sin_pair", "cos_pair", "tan_pair", "atan_pair", "asin_pair", "sqrt_pair", "sqrt_abacus_pair", "sqrt_std_pair"}
+(* results that are fixed_t / integers; ab = 1 iff sqrt() is the abacus algorithm in the build that produced the event *)
+LowZ(ab, e) ==
    CASE e.op = "fl2f" -> floating_point_to_fixed(FmtOf(e.t[1]), FDecode(FmtOf(e.t[1]), e.a[1]))
      [] e.op = "rt_d" -> floating_point_to_fixed(F64, fixed_to_floating_point(F64, e.a[1]))
-     [] e.op = "sqrt_std" -> sqrt_std_math(e.a[1])
+     [] e.op \in {"sin", "cos", "tan", "atan", "asin", "acos", "sqrt", "sqrt_std"} -> Unary(ab, e.op, e.a[1])
+     [] IsPairOp(e.op) -> Unary(ab, PairBase(e.op), e.a[2])
+     [] e.op = "atan2" -> atan2_fn(e.a[1], e.a[2])
+     [] e.op \in {"hypot", "hypot_sym"} -> hypot_fn(ab, e.a[1], e.a[2])
+     [] e.op = "a2r" -> angle_to_radians(TypeOf(e.t[1]), e.a[1])
+     [] e.op = "sin_angle" -> sin_(AngleRad(e.t[1], e.a[1]))
+     [] e.op = "cos_angle" -> cos_(AngleRad(e.t[1], e.a[1]))
+     [] e.op = "tan_angle" -> tan_fn(AngleRad(e.t[1], e.a[1]))
      [] e.op \in {"add", "sub", "mul", "div"} /\ Len(e.t) = 2 /\ ("f32" \in {e.t[1], e.t[2]}) ->
            LET x == PromF(e.t[1], e.a[1])  y == PromF(e.t[2], e.a[2]) IN
            (CASE e.op = "add" -> fixed_additioni(x, y) [] e.op = "sub" -> fixed_substracti(x, y)
@@ -28,10 +45,10 @@ LowFv(e) ==
      [] e.op = "f2f" -> fixed_to_floating_point(F32, e.a[1])
      [] OTHER -> LET x == AsD(e.t[1], e.a[1])  y == AsD(e.t[2], e.a[2]) IN FOp(e.op, x, y)
 
-Fid(e) ==
+Fid(ab, e) ==
    IF e.op = "cmp" THEN (IF e.o = LowCmp(e) THEN "same" ELSE "differs")
    ELSE IF HasLowF(e) THEN (IF FEqVal(FDecode(FmtOf(e.ot), e.o), LowFv(e)) THEN "same" ELSE "differs")
-   ELSE LET z == LowZ(e) IN
+   ELSE LET z == LowZ(ab, e) IN
         IF z = NoLow THEN "nolow"
         ELSE IF ZIsPoison(z) THEN (IF e.trap # "" THEN "same" ELSE "differs")
         ELSE IF e.trap = "" /\ e.o = z THEN "same" ELSE "differs"
